@@ -89,7 +89,14 @@ var ErrCtxCustom = errors.New("sim: upstream gave up")
 
 func newSimCtx(kind int) *simCtx { return &simCtx{done: make(chan struct{}), kind: kind} }
 
-func (c *simCtx) Deadline() (time.Time, bool)   { return time.Time{}, false }
+func (c *simCtx) Deadline() (time.Time, bool) {
+	if c.kind == 3 {
+		// a context that carries a deadline (a timeout middleware upstream, http.TimeoutHandler, a
+		// caller-supplied context) far ahead; it ends earlier, by cancellation
+		return time.Date(2099, 1, 1, 0, 0, 0, 0, time.UTC), true
+	}
+	return time.Time{}, false
+}
 func (c *simCtx) Done() <-chan struct{}         { return c.done }
 func (c *simCtx) Value(interface{}) interface{} { return nil }
 func (c *simCtx) Err() error {
